@@ -1835,6 +1835,147 @@ mod oracle {
     }
 }
 
+/// Spot checks of the ASSUMED contracts of /verif/prelude/*.rs against the real crates (rand, rand_distr, ndarray, burn).
+/// A failure here refutes an assumption of the verification, not a property of this crate.
+mod assumed_contracts {
+    use super::*;
+    use burn::backend::{Autodiff, NdArray};
+    use burn::tensor::{Tensor, TensorData};
+    use ndarray::{arr1, arr2, Array1, Array2, Array3, Axis};
+    use rand_distr::{Distribution, Exp1, Normal, StandardNormal};
+    type B = Autodiff<NdArray<f64>>;
+
+    /// rng.rs: a generator is a function of its state; seed_from_u64 is a function of the seed; `sample_iter(..).take(n)` makes
+    /// exactly n draws; Normal(mean, std) draws mean + std * (one StandardNormal draw); uniforms lie in [0, 1), Exp1 in [0, inf)
+    #[test]
+    fn assumed_rng_is_a_function_of_its_state() {
+        for seed in [0u64, 1, 42, u64::MAX] {
+            let (mut a, mut b) = (SmallRng::seed_from_u64(seed), SmallRng::seed_from_u64(seed));
+            assert!(a == b);
+            for _ in 0..50 {
+                let (x, y): (f64, f64) = (a.random(), b.random());
+                assert!(x.to_bits() == y.to_bits() && (0.0..1.0).contains(&x));
+                let (x, y): (f32, f32) = (a.random(), b.random());
+                assert!(x.to_bits() == y.to_bits() && (0.0..1.0).contains(&x));
+                let (n1, n2): (f64, f64) = (a.sample(StandardNormal), b.sample(StandardNormal));
+                assert!(n1.to_bits() == n2.to_bits() && n1.is_finite());
+                let (e1, e2): (f64, f64) = (a.sample(Exp1), b.sample(Exp1));
+                assert!(e1.to_bits() == e2.to_bits() && e1 >= 0.0 && e1.is_finite());
+                assert!(a == b);
+            }
+            // take(n) from sample_iter = n successive draws, nothing more
+            let mut c = a.clone();
+            let v: Vec<f64> = (&mut a).sample_iter(StandardNormal).take(7).collect();
+            let w: Vec<f64> = (0..7).map(|_| c.sample(StandardNormal)).collect();
+            assert!(v == w && a == c);
+            // Normal::sample = mean + std_dev * StandardNormal draw
+            let nd = Normal::new(0.5f64, 3.0).unwrap();
+            let mut d = a.clone();
+            let x = nd.sample(&mut a);
+            let z: f64 = d.sample(StandardNormal);
+            assert!(x == 0.5 + 3.0 * z && a == d);
+            // zip pulls from the first iterator before testing the second: one trailing draw
+            let mut e = a.clone();
+            let _v: Vec<f64> = (&mut a).sample_iter(StandardNormal).zip([1, 2, 3].iter()).map(|(x, _)| x).collect();
+            for _ in 0..4 { let _: f64 = e.sample(StandardNormal); }
+            assert!(a == e);
+        }
+        assert!(SmallRng::seed_from_u64(3) != SmallRng::seed_from_u64(4));
+    }
+    /// float.rs: comparisons with NaN are false, Float::min/max ignore a NaN operand, total_cmp is a total order consistent with <
+    #[test]
+    fn assumed_float_special_values() {
+        let nan = f64::NAN;
+        assert!(!(nan < 1.0) && !(nan > 1.0) && !(nan == nan) && !(1.0 <= nan));
+        assert!(num_traits::Float::min(1.0f64, nan) == 1.0 && num_traits::Float::min(nan, 1.0f64) == 1.0 && num_traits::Float::max(nan, 2.0f64) == 2.0);
+        assert!((f64::INFINITY - f64::INFINITY).is_nan() && (0.0f64 * f64::INFINITY).is_nan() && (-1.0f64).ln().is_nan() && 0.0f64.ln() == f64::NEG_INFINITY);
+        assert!(f64::NEG_INFINITY.exp() == 0.0 && (-1.0f64).sqrt().is_nan() && (1.0f64 / 0.0).is_infinite());
+        let v = [f64::NEG_INFINITY, -1.0, 0.0, 2.5, f64::INFINITY];
+        for i in 0..v.len() { for j in 0..v.len() { assert_eq!(v[i].total_cmp(&v[j]), v[i].partial_cmp(&v[j]).unwrap()); } }
+        assert!(nan.total_cmp(&f64::INFINITY) == std::cmp::Ordering::Greater);
+    }
+    /// ndarray*.rs: reductions, stacking, shapes, axis iteration, slicing, broadcasting
+    #[test]
+    fn assumed_ndarray_contracts() {
+        let m: Array2<f32> = arr2(&[[1.0, 2.0, 3.0], [4.0, 6.0, 8.0]]);
+        assert_eq!(m.mean_axis(Axis(0)).unwrap(), arr1(&[2.5, 4.0, 5.5]));
+        assert_eq!(m.sum_axis(Axis(0)), arr1(&[5.0, 8.0, 11.0]));
+        assert_eq!(m.pow2(), arr2(&[[1.0, 4.0, 9.0], [16.0, 36.0, 64.0]]));
+        assert!(Array2::<f32>::zeros((0, 3)).mean_axis(Axis(0)).is_none());
+        assert_eq!(m.shape(), &[2, 3]);
+        assert_eq!(m.clone() - arr1(&[1.0f32, 1.0, 1.0]).insert_axis(Axis(0)), arr2(&[[0.0, 1.0, 2.0], [3.0, 5.0, 7.0]]));
+        assert_eq!((m.clone() * 2.0 + m.clone()) / 3.0, m);
+        let rows: Vec<_> = m.axis_iter(Axis(0)).collect();
+        assert!(rows.len() == 2 && rows[1] == m.index_axis(Axis(0), 1));
+        let st = ndarray::stack(Axis(0), &[arr1(&[1.0f32, 2.0]).view(), arr1(&[3.0f32, 4.0]).view()]).unwrap();
+        assert_eq!(st, arr2(&[[1.0, 2.0], [3.0, 4.0]]));
+        assert!(ndarray::stack(Axis(0), &[arr1(&[1.0f32, 2.0]).view(), arr1(&[3.0f32]).view()]).is_err());
+        let flat = [1, 2, 3, 4, 5, 6];
+        let v = ndarray::ArrayView2::from_shape((2, 3), &flat).unwrap();
+        assert!(v[(1, 0)] == 4 && v[(0, 2)] == 3);
+        // from_shape fails only when the slice is too short; a longer slice is accepted and its prefix is viewed
+        let pre = ndarray::ArrayView2::from_shape((2, 2), &flat).unwrap();
+        assert!(pre[(0, 0)] == 1 && pre[(1, 1)] == 4);
+        assert!(ndarray::ArrayView2::from_shape((2, 4), &flat).is_err());
+        assert!(ndarray::ArrayView1::from_shape(4, &flat).unwrap()[3] == 4 && ndarray::ArrayView1::from_shape(7, &flat).is_err());
+        assert!(ndarray::ArrayView3::from_shape((1, 2, 2), &flat).is_ok() && ndarray::ArrayView3::from_shape((2, 2, 2), &flat).is_err());
+        assert_eq!(v.mapv(|x| x as f32 * 2.0), arr2(&[[2.0f32, 4.0, 6.0], [8.0, 10.0, 12.0]]));
+        let a3 = Array3::from_shape_fn((2, 5, 2), |(c, t, p)| (100 * c + 10 * t + p) as f32);
+        assert_eq!(a3.slice(ndarray::s![.., ..2, ..]).dim(), (2, 2, 2));
+        assert_eq!(a3.slice(ndarray::s![.., -2.., ..])[(1, 0, 1)], 131.0);
+        assert_eq!(a3.slice(ndarray::s![.., .., 1])[(1, 4)], 141.0);
+        let d = arr1(&[1.0f32, 2.0]);
+        assert_eq!(d.dot(&arr2(&[[1.0f32, 2.0], [3.0, 4.0]])), arr1(&[7.0, 10.0]));
+        assert_eq!(d.dot(&d), 5.0);
+        let mut s = [3.0f32, f32::NAN, -1.0];
+        s.sort_by(|a, b| b.total_cmp(a));
+        assert!(s[0].is_nan() && s[1] == 3.0 && s[2] == -1.0);
+    }
+    /// tensor.rs / tensorops.rs: element-wise operations, slicing, reshape (row-major), expand, matmul, reductions, masks,
+    /// slice_assign, permute, row-major to_data, element-type tags
+    #[test]
+    fn assumed_burn_contracts() {
+        let t = |v: Vec<f64>, r: usize, c: usize| Tensor::<B, 2>::from_data(TensorData::new(v, [r, c]), &Default::default());
+        let tv = |x: Tensor<B, 2>| x.to_data().to_vec::<f64>().unwrap();
+        let a = t(vec![1.0, 2.0, 3.0, 4.0, 5.0, 6.0], 2, 3);
+        assert_eq!(a.dims(), [2, 3]);
+        assert_eq!(tv(a.clone()), vec![1.0, 2.0, 3.0, 4.0, 5.0, 6.0]);
+        assert_eq!(tv(a.clone().slice([0..2, 1..2])), vec![2.0, 5.0]);
+        assert_eq!(tv(a.clone().slice([1..2, 0..3])), vec![4.0, 5.0, 6.0]);
+        assert_eq!(tv(a.clone().reshape([3, 2])), vec![1.0, 2.0, 3.0, 4.0, 5.0, 6.0]);
+        assert_eq!(a.clone().reshape([3, 2]).dims(), [3, 2]);
+        assert_eq!(tv(t(vec![7.0, 8.0], 1, 2).expand([3, 2])), vec![7.0, 8.0, 7.0, 8.0, 7.0, 8.0]);
+        assert_eq!(tv(a.clone().matmul(t(vec![1.0, 0.0, 0.0, 1.0, 1.0, 1.0], 3, 2))), vec![4.0, 5.0, 10.0, 11.0]);
+        assert_eq!(a.clone().sum_dim(1).squeeze::<1>(1).to_data().to_vec::<f64>().unwrap(), vec![6.0, 15.0]);
+        assert_eq!(tv(a.clone().powi_scalar(2)), vec![1.0, 4.0, 9.0, 16.0, 25.0, 36.0]);
+        assert_eq!(tv((-a.clone()).add_scalar(1.0).mul_scalar(2)), vec![0.0, -2.0, -4.0, -6.0, -8.0, -10.0]);
+        assert_eq!(t(vec![1.0, 2.0], 2, 1).flatten::<1>(0, 1).to_data().to_vec::<f64>().unwrap(), vec![1.0, 2.0]);
+        let mask = t(vec![1.0, 0.0], 2, 1).greater_equal_elem(0.5).expand([2, 3]);
+        assert_eq!(tv(a.clone().mask_where(mask, a.clone().mul_scalar(10.0))), vec![10.0, 20.0, 30.0, 4.0, 5.0, 6.0]);
+        let z = Tensor::<B, 2>::empty([2, 3], &Default::default()).slice_assign([0..1, 0..3], t(vec![9.0, 9.0, 9.0], 1, 3)).slice_assign([1..2, 0..3], t(vec![1.0, 1.0, 1.0], 1, 3));
+        assert_eq!(tv(z), vec![9.0, 9.0, 9.0, 1.0, 1.0, 1.0]);
+        let c3 = Tensor::<B, 3>::from_data(TensorData::new((0..12).map(|x| x as f64).collect::<Vec<_>>(), [2, 3, 2]), &Default::default());
+        let p = c3.permute([1, 0, 2]);
+        assert_eq!(p.dims(), [3, 2, 2]);
+        assert_eq!(p.to_data().to_vec::<f64>().unwrap(), vec![0.0, 1.0, 6.0, 7.0, 2.0, 3.0, 8.0, 9.0, 4.0, 5.0, 10.0, 11.0]);
+        // element-type tags: as_slice / to_vec fail on a type mismatch, convert converts, iter converts element-wise
+        let d = a.to_data();
+        assert!(d.as_slice::<f32>().is_err() && d.as_slice::<f64>().is_ok() && d.to_vec::<f32>().is_err());
+        assert!(d.clone().convert::<f32>().as_slice::<f32>().is_ok());
+        assert_eq!(d.iter::<f32>().collect::<Vec<f32>>(), vec![1.0f32, 2.0, 3.0, 4.0, 5.0, 6.0]);
+        // NaN comparisons on tensors are false
+        let n = Tensor::<B, 1>::from_data(TensorData::new(vec![f64::NAN, 1.0], [2]), &Default::default());
+        assert_eq!(n.clone().greater_equal_elem(0.0).to_data().to_vec::<bool>().unwrap(), vec![false, true]);
+        assert_eq!(n.clone().lower_elem(0.0).to_data().to_vec::<bool>().unwrap(), vec![false, false]);
+        assert_eq!(n.is_nan().to_data().to_vec::<bool>().unwrap(), vec![true, false]);
+        // autodiff: the gradient of sum(x^2) is 2x
+        let x = Tensor::<B, 1>::from_data(TensorData::new(vec![1.5f64, -2.0], [2]), &Default::default()).require_grad();
+        let y = x.clone().powi_scalar(2).sum();
+        let g = x.grad(&y.backward()).unwrap().to_data().to_vec::<f64>().unwrap();
+        assert_eq!(g, vec![3.0, -4.0]);
+    }
+}
+
 /// Seeded random exploration on the real code (bounded): a few hundred random cases per run in the quick tier, twenty times as
 /// many in the thorough tier (`VERIF_TIER=thorough`), reproducible from `VERIF_SEED`.
 mod explore {
